@@ -38,7 +38,10 @@ func runC01(r *Run) {
 	// child's handle, with commit / reopen / cache-drop events inside the history (an array decoded from its
 	// parent's register must still behave as a sequence with its own type)
 	specs = append(specs, Spec{Name: "arr-of-arrays-T256", Kind: "nested", T: 256, Keys: 2, Classes: []string{"t", "h", "A"}, Oracles: []string{"sem", "reopen", "events"},
-		Extra: map[string]int{"rootmap": 0, "lr": 2, "lc": 2, "maxc": 3, "depth": 2}})
+		Extra: map[string]int{"rootmap": 0, "lr": 2, "lc": 3, "maxc": 2, "depth": 2}},
+		// (lc = 3: a nested array grows past the inline limit and lives in its own slab, and shrinks back)
+		Spec{Name: "arr-of-arrays-2kids-T256", Kind: "nested", T: 256, Keys: 2, Classes: []string{"t", "A"}, Oracles: []string{"sem", "reopen", "events"},
+			Extra: map[string]int{"rootmap": 0, "lr": 2, "lc": 2, "maxc": 3, "depth": 2}})
 	evd := 6
 	if r.Thorough() {
 		evd = 8
